@@ -359,14 +359,14 @@ StatedPayer(tx) ==
 C15_Step ==
     /\ (IsDeliver(act') /\ AllCustom(act'.tx)) =>
         LET tx == act'.tx
-            fee == tx.fee * FeeUnit
             p == StatedPayer(tx) IN
         /\ supply' = supply /\ rest' = rest /\ vest' = vest
-        /\ IF act'.result = "ante" \/ fee = 0
+        /\ IF act'.result = "ante"
            THEN bal' = bal
+           \* the WHOLE declared fee (every coin of it) moves from the payer to the fee collector, and nothing else moves
            ELSE \A a \in Tracked : \A d \in Denoms :
-                   bal'[a][d] = bal[a][d] - (IF a = p /\ d = "umed" THEN fee ELSE 0)
-                                          + (IF a = FeeColl /\ d = "umed" THEN fee ELSE 0)
+                   bal'[a][d] = bal[a][d] - (IF a = p THEN FeeOf(tx, d) ELSE 0)
+                                          + (IF a = FeeColl THEN FeeOf(tx, d) ELSE 0)
         \* if any message fails, none of the transaction's messages has any effect on AOL, DID or PNFT state
         /\ act'.result # "ok" => custom' = custom
     \* a re-delivered copy of an already processed transaction costs nobody anything and changes nothing
